@@ -2,7 +2,7 @@ PROP = dict(
     level="exploration",
     technique="property-based testing (rapid): generated Set/Clear/Import histories on mutex and bool fields vs a column->row map model, at fragment level and through the executor/API",
     level_text="Histories of sets, clears, row clears and imports whose batches repeat a column with conflicting rows (1-6 entries over 1-3 columns, and 13-60 entries for one shard over 2-5 columns with non-adjacent repeats, against columns "
-               "that already hold the first, a middle, the last or none of the batch's rows), clear-imports, snapshots and Close+Open run on mutex and bool fragments "
+               "that already hold the first, a middle, the last or none of the batch's rows), clear-imports, snapshots and Close+Open (fragment level) and clean server restarts at generated points followed by further writes to columns that already hold a value (API level) run on mutex and bool fragments "
                "and on mutex/bool fields through PQL and API.Import over several shards. After every step each column holds at most one row, it is the row of the last "
                "write in request order, Row(f=r) is the inverse map, mutexVector.Get never reports multiple values, Set/Clear report changed correctly, and bool imports "
                "with a row above 1 are rejected without effect. Exploration, not proof.",
